@@ -81,6 +81,9 @@ func runC10(l *core.Ledger) {
 	l.With(map[string]string{"C09-W2": "C10-N6"}, func() { c09W2(l, r) })
 	l.With(map[string]string{"C02-T4": "C10-N6"}, func() { c02T4(l, r) })
 	c10N6(l, r)
+	l.Rule("C10-N7", "the stream is marked broken only while it is the current one and only on transport errors (C09-W8, C09-W6 re-run): a flag set after the other goroutine restored the stream makes the sender replace a healthy stream - the reader stays parked on the replaced one and the node's replies are never read, and the server's connect callback runs for streams nobody reads")
+	l.With(map[string]string{"C09-W6": "C10-N7", "C09-W8": "C10-N7"}, func() { c09W6(l, r) })
+	c10N8(l, r)
 	c10N1(l, r)
 	c10N2(l, r)
 	c10N3(l, r)
@@ -778,6 +781,54 @@ func c10N5(l *core.Ledger, r *rt) {
 // read-error edge. On the (re)connection path it fails the very request the
 // sender is about to write to the restored stream: the restarted server
 // handles it and replies, and the reply finds no router.
+// c10N8: a stream that has been (re-)created is recorded as usable. The sender
+// decides between "send" and "re-create the stream" on the streamBroken flag
+// alone; if the function that installs a new stream can return success with the
+// flag still set, every later request creates one more stream (one more connect
+// callback on the server) and the reader stays on an older one.
+func c10N8(l *core.Ledger, r *rt) {
+	l.Rule("C10-N8", "every function that installs a new stream (stores channel.gorumsStream of a shared channel) passes streamBroken.clear() on every path from the store to a return that can report success")
+	n := 0
+	for _, f := range allFuncs(l.Prog, r.pkg) {
+		f := f
+		sx.AllInstrs(f, func(nd sx.Node, in ssa.Instruction) {
+			st, ok := in.(*ssa.Store)
+			if !ok {
+				return
+			}
+			fa, ok := st.Addr.(*ssa.FieldAddr)
+			if !ok || !isNamed(fa.X.Type(), core.RootModule, "channel") || fieldOf(fa.X.Type(), fa.Field).Name() != "gorumsStream" || freshBase(fa.X, 0) {
+				return
+			}
+			n++
+			key := fmt.Sprintf("%s/installs-stream#%d", fnKey(f), n)
+			success := func(x sx.Node) bool {
+				ret, ok := x.Instr().(*ssa.Return)
+				if !ok {
+					return false
+				}
+				for _, res := range ret.Results {
+					if types.Identical(res.Type(), types.Universe.Lookup("error").Type()) {
+						return !sx.KnownNonNil(res, x.B)
+					}
+				}
+				return true
+			}
+			isClear := func(x sx.Node) bool {
+				c, ok := x.Instr().(*ssa.Call)
+				return ok && isFlagOp(&c.Call, "clear", "streamBroken")
+			}
+			w, must := sx.MustPassThrough(nd, isClear, success)
+			if must {
+				l.OK("C10-N8", key, st.Pos(), "every successful return after the store passes streamBroken.clear()")
+			} else {
+				l.Bad("C10-N8", key, sx.PosOf(w.Instr()), "a new stream is installed and success is returned while streamBroken can still be set: the sender re-creates the stream for every later request (the server's connect callback runs once per request, the reader stays parked on a replaced stream and replies are never read)")
+			}
+		})
+	}
+	l.Floor("C10-N8", n, 1, "stores that install a node stream")
+}
+
 func c10N6(l *core.Ledger, r *rt) {
 	rm := buildRouterModel(l, r, "C10-N6")
 	if rm == nil {
